@@ -55,8 +55,8 @@ RULE = ("seeded op lists (add / add_from_str / parse_rxns / remove_rxn / remove_
         "and dense+sparse incidence matrix of every live network are compared with a dict model. A run is non-trivial if "
         ">=1 failing op ('fault') fired and >=1 probe was hit; distinct = distinct event-log digests")
 
-EXPLICIT_IDS = ["r_1", "r_2", "r_3", "R1_1", "R1_2", "R2_1", "e1", "x"]
-RULES = ["r", "R1", "R2", "R3"]
+EXPLICIT_IDS = ["r_1", "r_2", "r_3", "R1_1", "R1_2", "R2_1", "e1", "x", "A", "r_1_1", "r_10"]
+RULES = ["r", "R1", "R2", "r_1"]
 
 
 # ---------------------------------------------------------------------------
@@ -110,7 +110,7 @@ def generate(seed: int, tier: str = "quick") -> Dict[str, Any]:
             op["rule"] = rng.choice(rules + [None])
             if k == "add":
                 op["eid"] = rng.choice(EXPLICIT_IDS) if rng.random() < p_explicit else None
-                op["fmt"] = rng.choice(["map", "map", "pairs", "labels", "rxnside"])
+                op["fmt"] = rng.choice(["map", "map", "pairs", "labels", "rxnside", "pairs_str", "map_float"])
             else:
                 op["style"] = rng.choice(["tight", "spaced", "star"])
                 op["suffix"] = rng.random() < 0.4
@@ -190,6 +190,13 @@ def _fmt_side(side: List[List[Any]], fmt: str) -> Any:
         return d
     if fmt == "pairs":
         return [(s, c) for s, c in side]
+    if fmt == "pairs_str":
+        return [(s, str(c)) for s, c in side]      # counts are normalised with int(): "2" is 2
+    if fmt == "map_float":
+        d2: Dict[str, Any] = {}
+        for s, c in side:
+            d2[s] = float(d2.get(s, 0) + c) if c > 0 else d2.get(s, 0.0)
+        return d2
     if fmt == "labels":
         out = []
         for s, c in side:
@@ -309,7 +316,7 @@ def check_net(H: CRNHyperGraph, M: Model, site: str, cond: str, other: bool) -> 
 # execution
 # ---------------------------------------------------------------------------
 
-_LOOKS_GENERATED = {"r_1": "r", "r_2": "r", "r_3": "r", "R1_1": "R1", "R1_2": "R1", "R2_1": "R2"}
+_LOOKS_GENERATED = {"r_1": "r", "r_2": "r", "r_3": "r", "R1_1": "R1", "R1_2": "R1", "R2_1": "R2", "r_1_1": "r_1", "r_10": "r"}
 
 
 def execute(case: Dict[str, Any], sim: Sim) -> None:
